@@ -100,7 +100,7 @@ fn hash_of(i: u8) -> [u8; 20] {
     h
 }
 
-pub fn run(out: &mut impl Write, seed: u64, cases: usize, _replay: &str, uring_resp_buf: usize) {
+pub fn run(out: &mut impl Write, seed: u64, cases: usize, _replay: &str, uring_resp_buf: usize, mio_only: bool) {
     let mut master = Sm::new(seed);
     let dir = std::path::Path::new(env!("CARGO_MANIFEST_DIR")).join("target").join("tmp").join(format!("aqv-udpnet-{}", std::process::id()));
     std::fs::create_dir_all(&dir).unwrap();
@@ -110,6 +110,7 @@ pub fn run(out: &mut impl Write, seed: u64, cases: usize, _replay: &str, uring_r
         // what the back end's send buffer holds (IPv6 entries are 18 bytes)
         let boundary = case % 6 == 5;
         let backend = if boundary { if (case / 6) % 2 == 0 { "uring" } else { "mio" } } else if case % 2 == 0 { "mio" } else { "uring" };
+        let backend = if mio_only { "mio" } else { backend };
         let send_buf: usize = if backend == "uring" { uring_resp_buf } else { aquatic_udp::common::BUFFER_SIZE };
         let max_scrape: u8 = r.pick(&[3u8, 70, 70]);
         // alternately exactly at the limit (must be accepted and delivered whole) and one beyond (must be refused)
